@@ -1,7 +1,7 @@
 #!/bin/bash
 # run_seed_wt.sh <seed dir (patch.diff, meta.json)> [tier]: run the property's check against a scratch worktree of /repo with the
 # change applied (PYTHONPATH puts the worktree's src first), evidence goes to a scratch directory. Used while /repo itself is busy.
-sd="$1"; tier="${2:-quick}"
+sd="$1"; tier="${2:-quick}"; shift; shift   # further arguments are passed to ./check (e.g. --only SUBSTR)
 pid=$(python3 -c "import json;print(json.load(open('$sd/meta.json'))['property'])")
 name=$(basename $(dirname $sd))_$(basename $sd)
 wt=/tmp/seedrun_$$
@@ -9,7 +9,7 @@ git -C /repo worktree add -q --detach $wt HEAD || exit 2
 git -C $wt apply $sd/patch.diff || { echo "$name: patch does not apply"; git -C /repo worktree remove --force $wt; exit 2; }
 cd /verif
 t0=$(date +%s)
-out=$(PYTHONPATH=$wt/src VF_EVIDENCE_DIR=/tmp/seedrun_ev_$$ ./check $pid --tier $tier 2>&1); rc=$?
+out=$(PYTHONPATH=$wt/src VF_EVIDENCE_DIR=/tmp/seedrun_ev_$$ ./check $pid --tier $tier "$@" 2>&1); rc=$?
 t1=$(date +%s)
 git -C /repo worktree remove --force $wt; rm -rf /tmp/seedrun_ev_$$
 echo "$sd property=$pid rc=$rc violations=$(echo "$out" | grep -c '^VIOLATION') $((t1-t0))s $(echo "$out" | grep "^\[$pid\]" | cut -c1-140)"
